@@ -481,6 +481,10 @@ def _make_xinterp():
         def binop(self, op, a, b, node=None):
             if isinstance(a, str) and isinstance(b, str) and isinstance(op, ast.Add):
                 return a + b
+            if isinstance(op, ast.LShift) and "lshift" in self.world.extra_builtins and is_intlike(a) and is_intlike(b) \
+                    and not (isinstance(a, int) and isinstance(b, int)):
+                # a << b with a symbolic operand: the contract's model (e.g. a * 2^b through a spec function); refused before
+                return self.world.extra_builtins["lshift"](self, [a, b], {})
             if isinstance(a, MapV) or isinstance(b, MapV):
                 return map_binop(self, op, a, b, node)
             return super().binop(op, a, b, node)
